@@ -7,6 +7,8 @@ CONSTANTS
   LensKind = "mixed"
   WithReload = FALSE
   ReloadBumpsVersion = TRUE
+  WithHideKeep = FALSE
+  Follow = FALSE
   WithScroll = FALSE
   DelayedSetsVersion <- TreeDelayedSetsVersion
 SPECIFICATION Spec
